@@ -15,8 +15,9 @@ open AcmedVerif.Props.C10
 #print axioms types_partition
 #print axioms env_precedence
 #print axioms env_precedence_account
-#print axioms env_precedence_account_full_is_false
-#print axioms env_precedence_account_partial
+#print axioms env_precedence_account_old
+#print axioms env_precedence_account_old_is_false
+#print axioms env_precedence_account_old_partial
 #print axioms env_precedence_old_is_false
 #print axioms env_precedence_old_partial
 #print axioms markClean_only_flag
@@ -24,3 +25,4 @@ open AcmedVerif.Props.C10
 #print axioms documented_vars_provided
 #print axioms model_satisfies_holds
 #print axioms model_satisfies_envHolds
+#print axioms model_matches_expectedChildEnv
